@@ -73,15 +73,17 @@ func genFileSrc(r *core.Rand, tier string) *FileSrc {
 
 var alienTypes = []string{"XFIH", "XFKM", "MThx", "mtrk", "RIFF", "\x00\x00\x00\x00", "MTr\x7f", "data"}
 
-func genAlien(r *core.Rand) ref.FChunk {
+// bigAliens is switched on by the C02 world only (the enumerating worlds read every file
+// once per byte offset and must keep their files small).
+func genAlien(r *core.Rand, big ...bool) ref.FChunk {
 	n := r.PickInt(0, 1, 2, 7, 8, 9, 50, 300)
-	if r.Chance(1, 60) {
+	if len(big) > 0 && big[0] && r.Chance(1, 60) {
 		n = r.PickInt(65536, 70000, 66000) // the length needs its third byte
 	}
 	return ref.FChunk{AlienType: alienTypes[r.Intn(len(alienTypes))], AlienData: r.Bytes(n)}
 }
 
-func genForeign(r *core.Rand, tier string) *ref.FFile {
+func genForeign(r *core.Rand, tier string, bigAliens ...bool) *ref.FFile {
 	f := &ref.FFile{}
 	if r.Chance(1, 4) {
 		fps := r.PickInt(24, 25, 29, 30)
@@ -99,7 +101,7 @@ func genForeign(r *core.Rand, tier string) *ref.FFile {
 	maxEv := r.PickInt(0, 1, 3, 8, 20, 40)
 	for t := 0; t < nTracks; t++ {
 		for aliens && r.Chance(1, 3) {
-			f.Chunks = append(f.Chunks, genAlien(r))
+			f.Chunks = append(f.Chunks, genAlien(r, bigAliens...))
 		}
 		var tr ref.FChunk
 		nEv := r.Range(0, maxEv)
@@ -133,7 +135,7 @@ func genForeign(r *core.Rand, tier string) *ref.FFile {
 		f.Chunks = append(f.Chunks, tr)
 	}
 	for aliens && r.Chance(1, 3) {
-		f.Chunks = append(f.Chunks, genAlien(r))
+		f.Chunks = append(f.Chunks, genAlien(r, bigAliens...))
 	}
 	return f
 }
